@@ -170,8 +170,11 @@ def run_graph(tape, spec, request, cfg, faults=None, fail=None, recorders=None,
                             dsk, request, pool=sim.executor,
                             optimize_graph=(entry == "mp"), **kw)
                     elif entry == "apply_async":
+                        # a multiprocessing.pool-shaped pool, used the way dask.threaded.get uses one:
+                        # failures travel back packed (a worker of such a pool only survives Exception)
                         obs.value = dask.local.get_apply_async(
-                            sim.apply_async, cfg["num_workers"], dsk, request, **kw)
+                            sim.apply_async, cfg["num_workers"], dsk, request,
+                            **dict({"pack_exception": dask.threaded.pack_exception}, **kw))
                     else:
                         raise HarnessError(entry)
             except HarnessError:
